@@ -129,6 +129,9 @@ theorem serverKeyList_facts (short : Bool) :
 theorem serverPairs_keys_sublist (y : Style) (st : State) :
     ((serverPairs y st).map (·.1)).Sublist (serverKeyList y.adminShort) := by
   simp only [serverPairs, List.map_append, List.map_cons, List.map_nil, keys_optPair, serverKeyList]
+  show List.Sublist _ ([bs "hostname", bs "mapname", bs "gametype", bs "gamever", bs "maxplayers", bs "password"] ++
+    [bs "maptitle"] ++ [bs "AdminEMail"] ++ [bs (if y.adminShort then "admin" else "AdminName")] ++ [bs "minplayers"] ++
+    [bs "tournament"])
   refine List.Sublist.append (List.Sublist.append (List.Sublist.append (List.Sublist.append (List.Sublist.append
     (List.Sublist.refl _) ?_) ?_) ?_) ?_) ?_ <;> exact sublist_ite_singleton _ _
 
@@ -208,6 +211,9 @@ theorem playerField_fieldKeyB (kind : Bytes) (i : Nat) (h95 : (95 : UInt8) ∉ k
 theorem playerPairs_keys (y : Style) (i : Nat) (p : Player) :
     ((playerPairs y i p).map (·.1)).Sublist ((kindList y.nameLong).map (fun k => fieldKeyB k i)) := by
   simp only [playerPairs, List.map_append, List.map_cons, List.map_nil, keys_optPair, kindList, fieldKey_eq]
+  show List.Sublist _ ([fieldKeyB (bs (if y.nameLong then "playername" else "player")) i, fieldKeyB (bs "frags") i,
+    fieldKeyB (bs "ping") i] ++ [fieldKeyB (bs "team") i] ++ [fieldKeyB (bs "mesh") i] ++ [fieldKeyB (bs "skin") i] ++
+    [fieldKeyB (bs "face") i] ++ [fieldKeyB (bs "ngsecret") i] ++ [fieldKeyB (bs "deaths") i] ++ [fieldKeyB (bs "health") i])
   refine List.Sublist.append (List.Sublist.append (List.Sublist.append (List.Sublist.append (List.Sublist.append
     (List.Sublist.append (List.Sublist.append (List.Sublist.refl _) ?_) ?_) ?_) ?_) ?_) ?_) ?_ <;>
     exact sublist_ite_singleton _ _
@@ -227,7 +233,6 @@ theorem fieldKeyB_inj_kind {k k' : Bytes} {i : Nat} (h : fieldKeyB k i = fieldKe
 theorem distinct_playerPairs (y : Style) (i : Nat) (p : Player) : Distinct (playerPairs y i p) := by
   rw [distinct_iff_keys_nodup]
   refine List.Pairwise.sublist (playerPairs_keys y i p) ?_
-  unfold List.Nodup
   rw [List.pairwise_map]
   exact List.Pairwise.imp (fun hne e => hne (fieldKeyB_inj_kind e)) (kindList_facts y.nameLong).1
 
@@ -330,7 +335,7 @@ theorem wf_iff (y : Style) (st : State) : wf y st = true → Wf y st := by
   intro h
   simp only [wf, Bool.and_eq_true, decide_eq_true_eq, List.all_eq_true, option_all_iff, okText_iff,
     distinctKeys_iff] at h
-  obtain ⟨⟨⟨⟨⟨⟨⟨⟨⟨⟨⟨⟨⟨⟨⟨⟨⟨h1, h2⟩, h3⟩, h4⟩, h5⟩, h6⟩, h7⟩, h8⟩, h9⟩, h10⟩, h11⟩, h12⟩, h13⟩, h14⟩, h15⟩, h16⟩, h17⟩, h18⟩ := h
+  obtain ⟨⟨⟨⟨⟨⟨⟨⟨⟨⟨⟨⟨⟨⟨⟨⟨h1, h2⟩, h3⟩, h4⟩, h5⟩, h6⟩, h7⟩, h8⟩, h9⟩, h10⟩, h11⟩, h12⟩, h13⟩, h14⟩, h15⟩, h16⟩, h17⟩ := h
   refine ⟨⟨h1, h2, h3, h4, h5, h6, h7, h8, h9⟩, ?_, ?_, ?_, ?_, h12, h13, h14, h15, h16, h17⟩
   · intro p hp
     have := h10 p hp
@@ -355,5 +360,195 @@ theorem wf_iff (y : Style) (st : State) : wf y st = true → Wf y st := by
     have : typedKeys.contains e.1 = true := by simpa using hm
     rw [this] at h2
     cases h2
+
+/-- where a variable of the reply comes from -/
+theorem mem_allPairs {y : Style} {st : State} {p : Bytes × Bytes} (hp : p ∈ allPairs y st) :
+    p ∈ serverPairs y st ∨ p ∈ st.extras ∨ p ∈ playersPairsFrom y 0 st.players := by
+  simp only [allPairs, List.mem_append] at hp
+  rcases hp with (h | h) | h
+  · exact Or.inl h
+  · exact Or.inr (Or.inl h)
+  · exact Or.inr (Or.inr h)
+
+theorem okPairs_allPairs {y : Style} {st : State} (h : Wf y st) : OkPairs (allPairs y st) :=
+  OkPairs.append (OkPairs.append (okPairs_serverPairs y st h.server) h.extrasOk)
+    (okPairs_playersPairsFrom y st.players 0 h.players)
+
+/-- what `playerField` says about each variable: only the player variables are player fields, and
+their tag determines their key -/
+theorem playerField_allPairs {y : Style} {st : State} (h : Wf y st) {p : Bytes × Bytes} (hp : p ∈ allPairs y st) :
+    (playerField p.1 = none ∧ (p ∈ serverPairs y st ∨ p ∈ st.extras))
+    ∨ (∃ k ∈ kindList y.nameLong, ∃ n, n < st.players.length ∧ p.1 = fieldKeyB k n ∧ playerField p.1 = some (k, n)
+        ∧ p ∈ playersPairsFrom y 0 st.players) := by
+  rcases mem_allPairs hp with hs | he | hpl
+  · exact Or.inl ⟨((serverKeyList_facts y.adminShort).2 _ (serverPairs_key_mem y st hs)).2.2, Or.inl hs⟩
+  · exact Or.inl ⟨(h.extrasKeys p he).2, Or.inr he⟩
+  · obtain ⟨k, hk, n, _, h2, e⟩ := playersPairsFrom_key y st.players 0 hpl
+    have hn : n < st.players.length := by omega
+    have f := (kindList_facts y.nameLong).2 k hk
+    have hnp := h.nplayers
+    exact Or.inr ⟨k, hk, n, hn, e, by rw [e]; exact playerField_fieldKeyB k n f.2.1 f.2.2 (by omega), hpl⟩
+
+theorem distinct_allPairs {y : Style} {st : State} (h : Wf y st) : Distinct (allPairs y st) := by
+  have hnp := h.nplayers
+  unfold allPairs
+  refine List.pairwise_append.mpr ⟨List.pairwise_append.mpr ⟨distinct_serverPairs y st, h.extrasDistinct, ?_⟩,
+    distinct_playersPairsFrom y st.players 0 (by omega), ?_⟩
+  · intro a ha b hb hab
+    have := ((serverKeyList_facts y.adminShort).2 _ (serverPairs_key_mem y st ha)).2.1
+    exact (h.extrasKeys b hb).1 (hab ▸ this)
+  · intro a ha b hb hab
+    obtain ⟨k, hk, n, _, h2, e⟩ := playersPairsFrom_key y st.players 0 hb
+    have f := (kindList_facts y.nameLong).2 k hk
+    have hb' : playerField b.1 = some (k, n) := by rw [e]; exact playerField_fieldKeyB k n f.2.1 f.2.2 (by omega)
+    have ha' : playerField a.1 = none := by
+      rcases List.mem_append.mp ha with h1 | h1
+      · exact ((serverKeyList_facts y.adminShort).2 _ (serverPairs_key_mem y st h1)).2.2
+      · exact (h.extrasKeys a h1).2
+    rw [hab, hb'] at ha'
+    cases ha'
+
+theorem kFinal_kQueryId_typed : kFinal ∈ typedKeys ∧ kQueryId ∈ typedKeys ∧ playerField kFinal = none
+    ∧ playerField kQueryId = none ∧ (∀ short, kFinal ∉ serverKeyList short ∧ kQueryId ∉ serverKeyList short) := by
+  refine ⟨by decide +kernel, by decide +kernel, by decide +kernel, by decide +kernel, ?_⟩
+  intro short
+  cases short <;> exact ⟨by decide +kernel, by decide +kernel⟩
+
+theorem nofinal_allPairs {y : Style} {st : State} (h : Wf y st) :
+    ∀ p ∈ allPairs y st, p.1 ≠ kFinal ∧ p.1 ≠ kQueryId := by
+  obtain ⟨t1, t2, f1, f2, f3⟩ := kFinal_kQueryId_typed
+  intro p hp
+  rcases mem_allPairs hp with hs | he | hpl
+  · have := serverPairs_key_mem y st hs
+    exact ⟨fun e => (f3 y.adminShort).1 (e ▸ this), fun e => (f3 y.adminShort).2 (e ▸ this)⟩
+  · have := (h.extrasKeys p he).1
+    exact ⟨fun e => this (e ▸ t1), fun e => this (e ▸ t2)⟩
+  · obtain ⟨k, hk, n, _, h2, e'⟩ := playersPairsFrom_key y st.players 0 hpl
+    have f := (kindList_facts y.nameLong).2 k hk
+    have hnp := h.nplayers
+    have hpf : playerField p.1 = some (k, n) := by
+      rw [e']; exact playerField_fieldKeyB k n f.2.1 f.2.2 (by omega)
+    refine ⟨fun e => ?_, fun e => ?_⟩
+    · rw [e, f1] at hpf; cases hpf
+    · rw [e, f2] at hpf; cases hpf
+
+/-! ### the parts -/
+
+def numberedFrom : Nat → List (List (Bytes × Bytes)) → List NPart
+  | _, [] => []
+  | i, c :: cs => (i, c) :: numberedFrom (i + 1) cs
+
+theorem numberedFrom_length (cs : List (List (Bytes × Bytes))) (i : Nat) : (numberedFrom i cs).length = cs.length := by
+  induction cs generalizing i with
+  | nil => rfl
+  | cons c r ih => simp [numberedFrom, ih]
+
+theorem numberedFrom_nums (cs : List (List (Bytes × Bytes))) (i : Nat) :
+    (numberedFrom i cs).map (·.1) = List.range' i cs.length := by
+  induction cs generalizing i with
+  | nil => rfl
+  | cons c r ih => simp [numberedFrom, ih, List.range'_succ]
+
+theorem numberedFrom_mem {cs : List (List (Bytes × Bytes))} {i : Nat} {a : NPart} (h : a ∈ numberedFrom i cs) :
+    a.2 ∈ cs ∧ i ≤ a.1 := by
+  induction cs generalizing i with
+  | nil => cases h
+  | cons c r ih =>
+    simp only [numberedFrom, List.mem_cons] at h
+    rcases h with rfl | h
+    · exact ⟨by simp, Nat.le_refl _⟩
+    · have := ih h
+      exact ⟨by simp [this.1], by omega⟩
+
+theorem allOf_numberedFrom (cs : List (List (Bytes × Bytes))) (i : Nat) : allOf (numberedFrom i cs) = cs.flatten := by
+  induction cs generalizing i with
+  | nil => rfl
+  | cons c r ih =>
+    have := ih (i + 1)
+    simp only [allOf] at this
+    simp [numberedFrom, allOf, this]
+
+theorem encPartsFrom_eq (y : Style) (total : Nat) (cs : List (List (Bytes × Bytes))) (i : Nat) :
+    encPartsFrom y total i cs = (numberedFrom i cs).map (encN y total) := by
+  induction cs generalizing i with
+  | nil => rfl
+  | cons c r ih => simp [encPartsFrom, numberedFrom, ih, encN]
+
+theorem chunks_flatten {α : Type} (cuts : List Nat) (l : List α) : (chunks cuts l).flatten = l := by
+  induction cuts generalizing l with
+  | nil => simp [chunks]
+  | cons n r ih => simp [chunks, ih]
+
+theorem chunks_length {α : Type} (cuts : List Nat) (l : List α) : (chunks cuts l).length = cuts.length + 1 := by
+  induction cuts generalizing l with
+  | nil => rfl
+  | cons n r ih => simp [chunks, ih]
+
+theorem chunks_sublist {α : Type} (cuts : List Nat) (l : List α) : ∀ c ∈ chunks cuts l, c.Sublist l := by
+  induction cuts generalizing l with
+  | nil => intro c hc; simp only [chunks, List.mem_singleton] at hc; subst hc; exact List.Sublist.refl _
+  | cons n r ih =>
+    intro c hc
+    simp only [chunks, List.mem_cons] at hc
+    rcases hc with rfl | hc
+    · exact List.take_sublist _ _
+    · exact (ih _ c hc).trans (List.drop_sublist _ _)
+
+/-- equal keys only occur inside one part -/
+theorem cross_chunks (cuts : List Nat) : ∀ (l : List (Bytes × Bytes)) (i : Nat), Distinct l →
+    ∀ a ∈ numberedFrom i (chunks cuts l), ∀ b ∈ numberedFrom i (chunks cuts l),
+      ∀ p ∈ a.2, ∀ q ∈ b.2, p.1 = q.1 → a.1 = b.1 := by
+  induction cuts with
+  | nil =>
+    intro l i _ a ha b hb _ _ _ _ _
+    simp only [chunks, numberedFrom, List.mem_singleton] at ha hb
+    rw [ha, hb]
+  | cons n r ih =>
+    intro l i hd a ha b hb p hp q hq hpq
+    have hsplit : Distinct (l.take n ++ l.drop n) := by rw [List.take_append_drop]; exact hd
+    obtain ⟨_, hdd, hx⟩ := List.pairwise_append.mp hsplit
+    have hlater : ∀ c : NPart, c ∈ numberedFrom (i + 1) (chunks r (l.drop n)) → ∀ z ∈ c.2, z ∈ l.drop n :=
+      fun c hc z hz => (chunks_sublist r _ c.2 (numberedFrom_mem hc).1).subset hz
+    simp only [chunks, numberedFrom, List.mem_cons] at ha hb
+    rcases ha with rfl | ha <;> rcases hb with rfl | hb
+    · rfl
+    · exact absurd hpq (hx p hp q (hlater b hb q hq))
+    · exact absurd hpq.symm (hx q hq p (hlater a ha p hp))
+    · exact ih (l.drop n) (i + 1) hdd a ha b hb p hp q hq hpq
+
+/-- the numbered parts of a well-formed reply -/
+def partsOf (y : Style) (st : State) : List NPart := numberedFrom 1 (chunks y.cuts (allPairs y st))
+
+theorem partsOf_length (y : Style) (st : State) : (partsOf y st).length = y.cuts.length + 1 := by
+  simp [partsOf, numberedFrom_length, chunks_length]
+
+theorem partsOf_ne_nil (y : Style) (st : State) : partsOf y st ≠ [] := by
+  intro h
+  have := partsOf_length y st
+  rw [h] at this
+  simp at this
+
+theorem allOf_partsOf (y : Style) (st : State) : allOf (partsOf y st) = allPairs y st := by
+  simp [partsOf, allOf_numberedFrom, chunks_flatten]
+
+theorem script_eq (y : Style) (st : State) : script y st = (partsOf y st).map (encN y (partsOf y st).length) := by
+  simp only [script, partsOf, numberedFrom_length]
+  exact encPartsFrom_eq y _ _ 1
+
+theorem partsOk_partsOf {y : Style} {st : State} (h : Wf y st) : PartsOk y (partsOf y st) := by
+  have hsub : ∀ a ∈ partsOf y st, a.2.Sublist (allPairs y st) := fun a ha =>
+    chunks_sublist y.cuts _ a.2 (numberedFrom_mem ha).1
+  refine ⟨?_, ?_, ?_, ?_, ?_, ?_, h.qid⟩
+  · intro a ha p hp
+    exact okPairs_allPairs h p ((hsub a ha).subset hp)
+  · intro a ha
+    exact List.Pairwise.sublist (hsub a ha) (distinct_allPairs h)
+  · intro a ha p hp
+    exact nofinal_allPairs h p ((hsub a ha).subset hp)
+  · exact cross_chunks y.cuts _ 1 (distinct_allPairs h)
+  · simp only [partsOf, numberedFrom_nums, numberedFrom_length]
+  · have := h.ncuts
+    rw [partsOf_length]
+    omega
 
 end Gd.Gs1
